@@ -1,21 +1,27 @@
 #!/bin/bash
 # Run checks against seeded changes: for each seeded/<name> apply patch.diff to the repository
-# copy ($VERIF_REPO, default /repo), run the listed checks, undo.  usage: mutmatrix.sh [name:Cxx,Cyy ...]
-# without arguments: every seeded change against the property named in its meta.json.
+# copy ($VERIF_REPO, default /repo), run the checks, undo.
+#   mutmatrix.sh [name | name:Cxx,Cyy[:tier] ...]     (no argument: every seeded change)
+# Without an explicit list a change is run against meta.json "checks" (entries "Cxx" or "Cxx:thorough").
+# Prints one line per pair:  RESULT <name> <Cxx> <tier> rc=<rc> <violated invariant> <#VIOLATION lines>
 V=${VERIF_HOME:-/verif}; R=${VERIF_REPO:-/repo}
 cd $V
 items="$@"
-if [ -z "$items" ]; then
-  for d in seeded/*/; do n=$(basename $d); p=$(python3 -c "import json;print(json.load(open('$d/meta.json'))['property'])" 2>/dev/null || echo ""); [ -n "$p" ] && items="$items $n:$p"; done
-fi
+[ -z "$items" ] && items=$(ls seeded | grep -v PROMPT)
 for it in $items; do
-  n=${it%%:*}; ps=${it#*:}
+  n=${it%%:*}
+  if [ "$n" = "$it" ]; then
+    ps=$(python3 -c "import json;print(' '.join(json.load(open('seeded/$n/meta.json')).get('checks',[])))")
+  else
+    ps=${it#*:}; ps=${ps//,/ }
+  fi
   if ! git -C $R apply --check $V/seeded/$n/patch.diff 2>/dev/null; then echo "RESULT $n - patch does not apply"; continue; fi
   git -C $R apply $V/seeded/$n/patch.diff
-  for p in ${ps//,/ }; do
-    out=$(VERIF_SEED=${VERIF_SEED:-1} bin/check $p --tier ${TIER:-quick} 2>&1); rc=$?
-    inv=$(echo "$out" | grep -o "invariant [A-Za-z0-9_]* violated" | head -1)
-    echo "RESULT $n $p rc=$rc $inv $(echo "$out" | grep -c '^VIOLATION')"
+  for p in $ps; do
+    tier=${TIER:-quick}; case $p in *:*) tier=${p#*:}; p=${p%%:*};; esac
+    out=$(VERIF_SEED=${VERIF_SEED:-1} bin/check $p --tier $tier 2>&1); rc=$?
+    inv=$(echo "$out" | grep -o "invariant [A-Za-z0-9_]* violated" | head -1 | awk '{print $2}')
+    echo "RESULT $n $p $tier rc=$rc ${inv:--} $(echo "$out" | grep -c '^VIOLATION')"
     [ $rc -eq 2 ] && echo "$out" | tail -5
   done
   git -C $R checkout -- . ; git -C $R clean -qfd -- internal test cmd pkg 2>/dev/null
